@@ -853,7 +853,19 @@ impl<'g> CallRun<'g> {
             CallEvKind::Abort => {
                 if self.status == Status::Pending {
                     self.status = Status::Aborted;
-                    self.drop_fut();
+                    if OPTS_VARIANT.with(|v| v.get()) % 2 == 1 {
+                        // cases with an odd id: the caller's code panics while it owns the future of the
+                        // call, which is therefore dropped during unwinding (`std::thread::panicking()`
+                        // is true inside its destructors); the caller catches the panic and carries on
+                        if let Some(f) = self.fut.take() {
+                            let _ = catch_unwind(AssertUnwindSafe(move || {
+                                let _owned = f;
+                                std::panic::resume_unwind(Box::new("caller panicked"));
+                            }));
+                        }
+                    } else {
+                        self.drop_fut();
+                    }
                 }
                 self.ended = true;
                 settle = false;
@@ -1701,8 +1713,20 @@ fn run_body(c: &RtCase, lines: &mut Vec<String>, flags: &mut RtFlags) {
                 return;
             };
             let mut state = InterruptibilityState::new(Interruptibility::new(rx.into(), strategy));
+            // `share-closed`: after the first call every sender of the interrupt channel is dropped (the
+            // signal handler has exited); later calls get a sender of an unrelated channel (unused)
+            let closed = c.family.starts_with("share-closed");
+            let mut tx = Some(tx);
+            let (tx_dummy, _rx_dummy) = mpsc::channel::<InterruptSignal>(1);
             for (j, r) in runs.iter().enumerate() {
                 let prefix = format!("r{j}.");
+                if closed && j >= 1 {
+                    tx = None;
+                }
+                let tx = match tx.as_ref() {
+                    Some(t) => t.clone(),
+                    None => tx_dummy.clone(),
+                };
                 if let Run::Call(cfg, evs) = r {
                     let gref = if cfg.mutable {
                         GRef::Mut(&mut g)
